@@ -530,6 +530,14 @@ func postprocessParsed(lookup objLookup) {
 			postprocessIOSACL(c)
 		}
 	}
+	// IOS shows type of subinterface behind its name:
+	// interface Serial0/0.1 point-to-point
+	// Netspoc only knows the name, so ignore additional attribute.
+	for _, c := range lookup["interface"][""] {
+		if l := strings.Fields(c.parsed); len(l) > 2 {
+			c.parsed = strings.Join(l[:2], " ")
+		}
+	}
 	// Move crypto map interface commands to different prefix for
 	// easier subsequent processing.
 	if l := lookup["crypto map"][""]; l != nil {
